@@ -222,13 +222,15 @@ def rfc_read_sdp(text):
     return sess_attrs, medias
 
 
+_B64RE = re.compile(rb"^(?:[A-Za-z0-9+/]{4})*(?:[A-Za-z0-9+/]{2}==|[A-Za-z0-9+/]{3}=)?$")
+
+
 def _b64_list(v, what):
     out = []
     for x in v.split(b","):
-        try:
-            out.append(base64.b64decode(x, validate=True))
-        except (binascii.Error, ValueError):
+        if not _B64RE.match(x):                       # RFC 4648 section 4, canonical padding
             raise SdpError("%s is not base64: %r" % (what, x[:24]))
+        out.append(base64.b64decode(x, validate=True))
         if not out[-1]:
             raise SdpError("%s holds an empty NAL unit" % what)
     return out
